@@ -499,27 +499,56 @@ func crashSite(stderr, first string) string {
 }
 
 func hangSite(dump string) string {
-	// first grog frame of a goroutine blocked in chan receive/send, select, sync wait
-	blocks := strings.Split(dump, "\n\n")
-	for _, b := range blocks {
-		if !strings.Contains(b, "[chan ") && !strings.Contains(b, "[select") && !strings.Contains(b, "[sync.") && !strings.Contains(b, "[semacquire") {
+	// innermost grog frame of every blocked goroutine, ranked: the more specific package wins
+	rank := func(fn string) int {
+		switch {
+		case strings.HasPrefix(fn, "output/"):
+			return 5
+		case strings.HasPrefix(fn, "caching/"):
+			return 4
+		case strings.HasPrefix(fn, "execution."):
+			return 3
+		case strings.HasPrefix(fn, "worker."):
+			return 2
+		case strings.HasPrefix(fn, "dag."):
+			return 1
+		}
+		return 0
+	}
+	best, bestRank := "unknown", -1
+	for _, b := range strings.Split(dump, "\n\n") {
+		head := strings.SplitN(b, "\n", 2)[0]
+		if !strings.Contains(head, "[chan ") && !strings.Contains(head, "[select") && !strings.Contains(head, "[sync.") && !strings.Contains(head, "[semacquire") {
 			continue
+		}
+		kind := head[strings.Index(head, "[")+1:]
+		if i := strings.IndexAny(kind, ",]"); i > 0 {
+			kind = kind[:i]
 		}
 		for _, line := range strings.Split(b, "\n") {
 			line = strings.TrimSpace(line)
-			if strings.HasPrefix(line, "grog/internal/") && !strings.Contains(line, "console") {
-				fn := line
-				if i := strings.LastIndex(line, "("); i > 0 {
-					fn = line[:i]
-				}
-				if strings.Contains(fn, "cmds.") || strings.Contains(fn, "Executor).Execute") {
-					continue
-				}
-				return "site=" + strings.TrimPrefix(fn, "grog/internal/")
+			if !strings.HasPrefix(line, "grog/internal/") || strings.Contains(line, "console") || strings.Contains(line, "verifhook") {
+				continue
 			}
+			fn := strings.TrimPrefix(line, "grog/internal/")
+			if i := strings.LastIndex(fn, "("); i > 0 {
+				fn = fn[:i]
+			}
+			if strings.Contains(fn, "cmds.") {
+				break
+			}
+			r := rank(fn) * 2
+			if strings.HasPrefix(kind, "chan") || strings.HasPrefix(kind, "select") {
+				r++ // the goroutine stuck on a channel is the cause, the WaitGroup waiter the effect
+			}
+			cand := fn + "[" + strings.ReplaceAll(kind, " ", "-") + "]"
+			if r > bestRank || (r == bestRank && cand < best) {
+				best, bestRank = cand, r
+			}
+			break // innermost grog frame only
 		}
 	}
-	return "site=unknown"
+	return "site=" + best
 }
 
 // depRelation says through which kind of edge the dependency outputs that changed since the
